@@ -57,7 +57,11 @@ pub assume_specification<T>[ core::slice::from_ref ](x: &T) -> (r: &[T]) ensures
 // (A5) total, panic-free std string functions whose RESULT IS LEFT UNSPECIFIED: code that starts using them is
 //      still accepted by the verifier, and any contract that depends on their result then fails instead of
 //      the whole unit being rejected as "unsupported"
-pub assume_specification<'a>[ str::trim ](s: &'a str) -> (r: &'a str);
+/// "s consists of (Unicode) whitespace only" — DEFINED by str::trim: the one fact assumed about trim is that its result
+/// is empty exactly for such strings
+pub uninterp spec fn blank_str(s: &str) -> bool;
+pub assume_specification<'a>[ str::trim ](s: &'a str) -> (r: &'a str)
+    ensures (r.spec_bytes().len() == 0) == blank_str(s);
 pub assume_specification<'a>[ str::trim_start ](s: &'a str) -> (r: &'a str);
 pub assume_specification<'a>[ str::trim_end ](s: &'a str) -> (r: &'a str);
 pub assume_specification<'a, P: core::str::pattern::Pattern>[ str::trim_start_matches::<P> ](s: &'a str, p: P) -> (r: &'a str);
@@ -424,13 +428,15 @@ ret r
 spec:
         ensures r@ == self.frags()
 @*/
-    /// "the text is blank": assumed contract of is_text_empty (iterator `all` + str::trim, not under contract);
-    /// the only fact used is that a text without fragments is blank
-    pub uninterp spec fn blank(&self) -> bool;
-/*@ fn src/text.rs Text::is_text_empty stub
+    /// C07: the text is blank: every fragment consists of whitespace only (as str::trim sees it)
+    pub open spec fn blank(&self) -> bool { forall|i: int| 0 <= i < self.frags().len() ==> blank_str((#[trigger] self.frags()[i]).txt()) }
+/*@ fn src/text.rs Text::is_text_empty
+tags C07 C03
 ret r
 spec:
-        ensures r == self.blank(), self.frags().len() == 0 ==> r
+        ensures r == self.blank()     // [C07] blank means Unicode-blank, fragment by fragment
+closure @ `|f| f.text.trim().is_empty()` `&TextFragment<'a>` ret `b: bool`:
+        ensures b == blank_str(f.txt())
 @*/
 /*@ fn src/text.rs Text::text_trimmed stub
 @*/
